@@ -268,8 +268,11 @@ class BoolP:
 class Explorer:
     """DFS over branch decisions of a deterministic function of proxies."""
 
-    def __init__(self, timeout_ms=60000):
+    def __init__(self, timeout_ms=60000, unknown_is_feasible=False):
         self.timeout_ms = timeout_ms
+        # over-approximation: a branch whose feasibility the solver cannot decide is explored
+        # (sound for validity queries: an infeasible path only adds a vacuous obligation)
+        self.unknown_is_feasible = unknown_is_feasible
         self.prefix = []
         self.pos = 0
         self.pc = []  # path condition (incl. variable range assumptions)
@@ -301,7 +304,10 @@ class Explorer:
             rt = self._sat(e)
             rf = self._sat(z3.Not(e))
             if rt == z3.unknown or rf == z3.unknown:
-                raise Inconclusive("branch feasibility unknown")
+                if not self.unknown_is_feasible:
+                    raise Inconclusive("branch feasibility unknown")
+                rt = z3.sat if rt == z3.unknown else rt
+                rf = z3.sat if rf == z3.unknown else rf
             if rt == z3.sat and rf == z3.sat:
                 choice = True
                 self.work.append(self.prefix[: self.pos] + [False])
@@ -366,3 +372,82 @@ def model_int(m, bv):
     v = m.eval(bv.t, model_completion=True)
     n = v.as_signed_long()
     return n
+
+
+class IntP:
+    """mathematical-integer proxy (z3 Int) for kernels where bit-blasting is
+    hopeless (256-bit field) but code and specification differ only by
+    polynomial rearrangement"""
+
+    __slots__ = ("e",)
+
+    def __init__(self, e):
+        self.e = e
+
+    @staticmethod
+    def var(name, lo=None, hi=None):
+        x = z3.Int(name)
+        if lo is not None:
+            CURRENT.assume(x >= lo)
+        if hi is not None:
+            CURRENT.assume(x <= hi)
+        return IntP(x)
+
+    @staticmethod
+    def lift(x):
+        return x if isinstance(x, IntP) else IntP(z3.IntVal(int(x)))
+
+    def __add__(self, o):
+        return IntP(self.e + IntP.lift(o).e)
+
+    __radd__ = __add__
+
+    def __sub__(self, o):
+        return IntP(self.e - IntP.lift(o).e)
+
+    def __rsub__(self, o):
+        return IntP(IntP.lift(o).e - self.e)
+
+    def __mul__(self, o):
+        return IntP(self.e * IntP.lift(o).e)
+
+    __rmul__ = __mul__
+
+    def __neg__(self):
+        return IntP(-self.e)
+
+    def __pow__(self, k):
+        r = IntP.lift(1)
+        for _ in range(k):
+            r = r * self
+        return r
+
+    def __mod__(self, m):
+        m = IntP.lift(m)
+        return IntP(self.e % m.e)  # z3 Int mod is non-negative for a positive modulus, as Python's
+
+    def _c(self, o, f):
+        return BoolP(f(self.e, IntP.lift(o).e))
+
+    def __eq__(self, o):
+        return self._c(o, lambda a, b: a == b)
+
+    def __ne__(self, o):
+        return self._c(o, lambda a, b: a != b)
+
+    def __lt__(self, o):
+        return self._c(o, lambda a, b: a < b)
+
+    def __le__(self, o):
+        return self._c(o, lambda a, b: a <= b)
+
+    def __gt__(self, o):
+        return self._c(o, lambda a, b: a > b)
+
+    def __ge__(self, o):
+        return self._c(o, lambda a, b: a >= b)
+
+    def __bool__(self):
+        return bool(self != 0)
+
+    __hash__ = None
